@@ -13,26 +13,28 @@ MANIFEST = {
         "technique": "Lean 4 proof over a checked-memory model of Unicode.hpp / String::fromHex / fromBase64 / integer conversions "
                      "(tables, masks, guard and encoder range tests regenerated from the sources by tools/gen_codec.py) + differential "
                      "correspondence of the compiled model with the real code under ASan/UBSan, incl. all 1,114,112 code points",
-        "text": "Theorems (all inputs, no bounds; Nstd/Codec/Props.lean): toString(cp) = RFC 3629 encoding and fromString(toString(cp)) = cp "
-                "for every cp < 0x110000 (range lemmas, no enumeration), also in front of arbitrary trailing bytes; empty result above U+10FFFF; "
-                "isValid accepts every concatenation of encoded code points; fromString/isValid never read outside the range they are "
-                "given and length() never leaves the 5-entry offset table, for arbitrary bytes and lengths; fromHex = upper-case hex text of "
-                "every byte string; fromBase64 inverts the RFC 4648 encoding of every byte string and, for EVERY input, reads its table "
-                "below its size and writes inside the reserved buffer (false for the unpatched signed guard: defect D26); the four integer "
-                "round trips over the full range under the stated libc behaviour.  Tie to the current sources on every run: generated "
-                "tables/guards (the theorems are stated over them), identical op lines through the real code (exactly sized heap "
-                "buffers) and the compiled model with Python codecs/base64/int as independent reference, and a test of the Lean "
-                "specifications (Spec.utf8, rfc4648Encode, upperHex, decimal) against Python.",
+        "text": "Theorems (all inputs, no bounds; Nstd/Codec/Props.lean, 24 obligations, none partial): toString(cp) = RFC 3629 encoding and "
+                "fromString(toString(cp)) = cp for every cp < 0x110000 (range lemmas, no enumeration), also in front of arbitrary trailing "
+                "bytes; empty result above U+10FFFF; isValid = the structural well-formedness predicate for EVERY byte string and accepts every "
+                "concatenation of encoded code points; fromString/isValid never read outside the range they are given and length() never "
+                "leaves the 5-entry offset table, for arbitrary bytes and lengths; fromHex = upper-case hex text of every byte string; "
+                "fromBase64 = Spec.b64Decode for EVERY input (full functional spec), inverts the RFC 4648 encoding of every byte string, "
+                "reads its table below its size and writes inside the reserved buffer (false for the unpatched signed guard: defect D26); "
+                "the four integer round trips over the full range and the parse of arbitrary numerals (white space, sign, leading "
+                "zeros, junk) under the stated libc behaviour.  Tie to the current sources on every run: generated tables / guard / "
+                "switch expressions / masks / range tests (the theorems are stated over them), identical op lines through the real "
+                "code (exactly sized heap buffers; every public overload named by the property) and the compiled model with Python "
+                "codecs/base64/int/float as independent reference, and a test of the Lean specifications against Python.",
         "note": "Trusted: Lean kernel + propext/Classical.choice/Quot.sound; the hand translation of the control flow of "
                 "Unicode.hpp and of fromHex/fromBase64 into Nstd/Codec/Model.lean (validated by the correspondence run, not proved); "
                 "the translator tools/gen_codec.py (regexes + a small C-expression translator; an unrecognised rewrite is reported as a "
                 "broken tie); libc behaviour (vsnprintf %d/%u/%lld/%llu, strtol/strtoul/strtoll/strtoull, glibc atoi/atoll, LP64) is "
                 "ASSUMED as Lean definitions - the integer theorems are relative to them, the real libc is exercised only by the "
-                "correspondence run; String's buffer management (reserve/resize/append, area Str) is not modelled: the result buffers of "
-                "fromBase64 (inlen bytes) and fromHex (2*size bytes) are fixed blocks with checked writes.  The exhaustive runs "
-                "(all code points, all byte strings <= 3 bytes, all base64 strings <= 4 symbols over 68 symbols) are TESTS of the tie, "
-                "not the proof.  No theorem is partial; isValid is proved bounds-safe and complete for encoder output, not that it "
-                "rejects every ill-formed string (it accepts over-long forms / surrogates / > U+10FFFF by design of the code).",
+                "correspondence run; toDouble/fromDouble have no model and no theorem (harness vs Python float only); String's buffer "
+                "management (reserve/resize/append, area Str) is not modelled: the result buffers of fromBase64 (inlen bytes) and "
+                "fromHex (2*size bytes) are fixed blocks with checked writes.  The exhaustive runs (all code points, all byte strings "
+                "<= 3 bytes, all base64 strings <= 4 symbols over 68 symbols) are TESTS of the tie, not the proof.  isValid accepts "
+                "over-long forms / surrogates / > U+10FFFF by design of the code; isValid_spec states exactly that.",
         "design_ref": "DESIGN.md 3/C18",
     }
 }
